@@ -3,6 +3,8 @@
 #include "psyh.h"
 #include <cstring>
 #include <iostream>
+#include <ext/stdio_filebuf.h>
+#include <unistd.h>
 
 static std::vector<std::pair<std::string, Handler>>& table()
 {
@@ -21,10 +23,17 @@ int main(int argc, char** argv)
         return 2;
     }
     std::ios::sync_with_stdio(false);
+    // answers go to the original stdout; anything the library itself prints on stdout (the "[ASSERT] at …" lines of
+    // assertion-enabled builds) is diverted to stderr so that it cannot shift the answer stream
+    int answersFd = dup(1);
+    dup2(2, 1);
+    static __gnu_cxx::stdio_filebuf<char> answersBuf(answersFd, std::ios::out);
+    static std::ostream answers(&answersBuf);
+    std::cin.tie(&answers);          // every read of a case flushes the answers so far (a crash loses nothing)
     for (auto& e : table()) {
         if (e.first == argv[1]) {
             std::vector<std::string> args(argv + 2, argv + argc);
-            return e.second(args, std::cin, std::cout);
+            { int rc = e.second(args, std::cin, answers); answers.flush(); return rc; }
         }
     }
     std::cerr << "unknown component " << argv[1] << "\n";
